@@ -14,7 +14,7 @@ LEVEL_NOTE = 'trusted: the record + renderer in this module'
 DESIGN_REF = 'DESIGN.md section 3 C20'
 LEVEL = 'exploration'
 RULE = ('Cases: one DEF text each. Non-trivial iff some net has >= 2 wire segments, a wildcard coordinate and a via array. Distinct = digest of the text.'
-        ' Coordinates up to 10 digits, via arrays up to 40 x 11, occasional files with 260-400 components / 130-300 pins; texts reach the parser through parse() or the load() variants.')
+        ' Coordinates up to 10 digits, via arrays up to 40 x 11, occasional files with 260-400 components / 130-300 pins; texts reach the parser through parse() or the load() variants, with and without a final newline / surrounding blank lines; 8 % of the later wire points are ( * * ).')
 ASSUMPTIONS = ['unsigned coordinates; rows have one of the two counts equal to 1 with step 0 (so "number of sites / step" has one reading); every checked net is ROUTED',
                'wire point lists: a None reported at a position written * is accepted as "as written"; via positions are strict',
                'via lists are compared as multisets (the property fixes positions, not their order)']
